@@ -12,6 +12,7 @@ NA = {
            "checking / SMT decides it; outside this technique family). Its behavioural consequences are sampled by "
            "the packet-level checks, which use independent bit-serial CRC references.",
 }
+READY = set(open(os.path.join(ROOT, 'tools', 'ready.txt')).read().split())
 checks, na, engines = [], [], {}
 for p in props:
     pid = p["id"]
@@ -19,7 +20,7 @@ for p in props:
     if pid in NA:
         na.append({"property_id": pid, "reason": NA[pid]})
         continue
-    if not os.path.exists(path):
+    if not os.path.exists(path) or pid not in READY:
         na.append({"property_id": pid, "reason": "not claimed yet: its simulation check (DESIGN.md section 5) is not "
                    "implemented in this tree; the property itself is a simulation target"})
         continue
